@@ -227,45 +227,46 @@ ADDENDA = {
     "C01": "Also: the inverse permutation `trans.index(p)` takes a native position; negative positions are normalised with the leg count of "
            "their own index space; a result whose signature/fusion records were already reordered through `trans` resets it; parallel "
            "per-block sequences (struct.t, struct.D, slices) that are zipped were narrowed by the same selection (engine seqsel); no call "
-           "passes two of the caller's names for each other's parameter. Round 4: the four fields permuted by consume_transpose travel together on in-place consumption; public Tensor methods that read per-leg native fields account for the pending permutation (who-must-read, ten named exceptions); `_join_contiguous_slices` merges exactly the runs contiguous in both lists (interpreted on witnesses); generic rules U6-U10 (written mutable defaults, optional transformations skipped by a shortcut, documented defaults, slipped breaks, keywords swallowed by named parameters).",
+           "passes two of the caller's names for each other's parameter. Round 4: the four fields permuted by consume_transpose travel together on in-place consumption; public Tensor methods that read per-leg native fields account for the pending permutation (who-must-read, ten named exceptions); `_join_contiguous_slices` merges exactly the runs contiguous in both lists (interpreted on witnesses); generic rules U6-U10 (written mutable defaults, optional transformations skipped by a shortcut, documented defaults, slipped breaks, keywords swallowed by named parameters). Round 5: no value read from a field that `X = X.conj()` changes is used after that rebinding (I10); element-wise kernels with a cutoff compare magnitudes (B4).",
     "C02": "Also: remove_leg's total charge involves the signature of the removed leg; the axis-range guard shared by tensordot/trace accepts "
-           "exactly 0..ndim-1 (evaluated on witness axes); the E3 additions listed under C01. Round 4: in-place consumption takes hfs with struct/slices/data/trans; a struct whose block list was narrowed carries the matching size when it becomes the struct of a result.",
+           "exactly 0..ndim-1 (evaluated on witness axes); the E3 additions listed under C01. Round 4: in-place consumption takes hfs with struct/slices/data/trans; a struct whose block list was narrowed carries the matching size when it becomes the struct of a result. Round 5: components of a charge are never summed, charges are negated only through the symmetry (G7, G8).",
     "C03": "Also: the mask test ranges over every leg; the fusion-tree parsers pop their parallel stacks in lock-step; the E3 additions listed "
-           "under C01. Round 4: the compatibility test compares every field of the fusion records; splices at precomputed positions run back to front.",
+           "under C01. Round 4: the compatibility test compares every field of the fusion records; splices at precomputed positions run back to front. Round 5: validation loops are not left early by a flag latch (U12); variadic operations do not decide from operands[0] vs operands[1] (U13).",
     "C04": "Also: the leg groups of the factorisations go through the pending permutation in the right direction (index typing in the scope of "
-           "svd/qr/eig/eigh/moveaxis); the (signature, hfs, mfs) triples are discovered from the results, not from local names. Round 4: every scipy svds call is re-ordered to descending on every path, for every solver; no option is read from **kwargs under the name of a declared parameter.",
+           "svd/qr/eig/eigh/moveaxis); the (signature, hfs, mfs) triples are discovered from the results, not from local names. Round 4: every scipy svds call is re-ordered to descending on every path, for every solver; no option is read from **kwargs under the name of a declared parameter. Round 5: the `which` table of the Hermitian ARPACK driver (S9); block lists and per-block limits of the decompositions narrowed together (I6 with adoption by zip).",
     "C05": "Also: the tables of open edges and pending swaps are renumbered by the same maps; every insertion into the Z2 set of pending swaps "
-           "is a toggle; the legs whose parity swap_gate reads are addressed through the pending permutation in the right direction. Round 4: the crossings discarded before a jump are those the jump resolves (all of a leg only under the bundle-size assertion).",
+           "is a toggle; the legs whose parity swap_gate reads are addressed through the pending permutation in the right direction. Round 4: the crossings discarded before a jump are those the jump resolves (all of a leg only under the bundle-size assertion). Round 5: requested swaps keep their multiplicity (W10); fkron re-orders sites and operators alike (W11, opportunistic).",
     "C06": "Also: -psi, number*psi and psi/number agree with psi*(..) as rational identities in number and |number| (complex scalars); the "
            "virtual leg that absorbs the total charge of a site tensor is the first one. Round 4: sums over member environments count each member once; numpy scalars reach __mul__ unchanged.",
     "C08": "Also: the discarded weights are composed so that kept weights multiply (inductive polynomial invariant, any spelling); canonize_ "
            "absorbs a central block before every orthogonalize_site_ (typestate on the CFG). Floating-point cancellation in an algebraically "
-           "identical composition is NOT decided. Round 4: orthogonalize_site_/diagonalize_central_ reset the factor for normalize=True and accumulate for normalize=False (per value of the knob); documented defaults equal signature defaults.",
+           "identical composition is NOT decided. Round 4: orthogonalize_site_/diagonalize_central_ reset the factor for normalize=True and accumulate for normalize=False (per value of the knob); documented defaults equal signature defaults. Round 5: entropy cut-off on normalised probabilities (P5); every normalising division protected against a zero norm on every path (P6).",
     "C09": "Also: every Heff sibling carries the operator's factor on every path; the local eigenproblem is solved for which='SR' for every "
-           "option set (defaults of dmrg_ and of eigs); the maps handed to eigs are homogeneous in their argument. Round 4: the norm factor of the input is reset on every path to the construction of the environment.",
+           "option set (defaults of dmrg_ and of eigs); the maps handed to eigs are homogeneous in their argument. Round 4: the norm factor of the input is reset on every path to the construction of the environment. Round 5: per-item defaults are per item (U15).",
     "C10": "Also: the local generators handed to expmv are homogeneous in their argument (no affine term); composition constants written as "
            "expressions are evaluated numerically. Round 4: the sweep call that samples H(t) receives the environment through the reset in the same call (per sub-step).",
     "C13": "Also: the relative tolerance refers to the maximum of the very values compared; selection by comparison with the K-th largest "
            "value (ties) is a violation; a dict-valued per-sector limit of the partial-SVD policies is looked up by a key depending on the "
-           "same options (nU, sU) as the S-sector charges; K == 0 protection is decided on the CFG. Round 4: the spectrum masked and returned by the wrappers is the one the decomposition computed; every sector passes the computation of its keep-count in the per-block stage.",
-    "C14": "Also: parallel per-block sequences narrowed by the same selection (seqsel), converse of I2, inverse-permutation typing. Round 4: the resize/clear/info tables pair every kernel with itself (K4); no break directly behind an inner search loop that has none; the who-must-read rule I9.",
+           "same options (nU, sU) as the S-sector charges; K == 0 protection is decided on the CFG. Round 4: the spectrum masked and returned by the wrappers is the one the decomposition computed; every sector passes the computation of its keep-count in the per-block stage. Round 5: shortcut returns of the mask functions decided by both global limits (D11).",
+    "C14": "Also: parallel per-block sequences narrowed by the same selection (seqsel), converse of I2, inverse-permutation typing. Round 4: the resize/clear/info tables pair every kernel with itself (K4); no break directly behind an inner search loop that has none; the who-must-read rule I9. Round 5: SlicedLeg normalises slice keys like charges (N9).",
     "C15": "Also: library calls allowed to overwrite their operand (scipy overwrite_a/overwrite_b=True) count as writes into that operand. "
            "Round 4: the PEPS environments stay outside the interprocedural summaries (DESIGN 9.9), but M6 holds helpers that are called from "
            "them with the caller's own parameter to M1, M7 holds the DIRECT writes of the environments' public value-returning operations to the "
-           "property (two named exceptions), and M8 reports a mutable default that the function writes, over the whole package.",
+           "property (two named exceptions), and M8 reports a mutable default that the function writes, over the whole package. Round 5: augmented assignment on the caller's array in a backend kernel (M4).",
     "C16": "Also: no parameter of a memoised function is an instance of a stateful identity-hashed class (Tensor, MPS, ...); the fermionic "
-           "flag vector handed to the memoised sign computations has one (boolean) encoding on every path.",
+           "flag vector handed to the memoised sign computations has one (boolean) encoding on every path. Round 5: no state in module-level containers (K8); metadata never compared by identity (K9).",
     "C17": "Also: an option resolved by self-delegation forwards every other parameter (to_dict(resolve_ops=True) keeps meta); every key a "
            "reader tests for presence is also read; the generic split/combine traversals order keys in a way defined for the mixed "
-           "int/tuple keys of an MPS with a central block.",
+           "int/tuple keys of an MPS with a central block. Round 5: config-compatibility guards compare values, not truthiness (Z12).",
     "C18": "Also: every value of the requested Krylov dimension of expmv is bounded by the maximum its controller tests for; every step is "
            "bounded by the remaining time (accepted steps add up to |t|); the right-hand side of lin_solver's projected problem is the "
            "norm of the residual the basis starts from. Round 4: no function writes into a mutable default (shared Hessenberg dictionary); all three solvers size the projected problem as len(basis) on happy breakdown and len(basis)-1 otherwise.",
     "C19": "Also: guards written as raise-in-loop and a modulus held in a module-level constant are evaluated alike; sorted storage of (t, D) "
-           "is decided by evaluating the two store expressions on a witness list of pairs. Round 4: LegMeta.conj returns the dual (s=-self.s, conjugated sub-legs); a component computed from other columns of the signed sum is a violation.",
+           "is decided by evaluating the two store expressions on a witness list of pairs. Round 4: LegMeta.conj returns the dual (s=-self.s, conjugated sub-legs); a component computed from other columns of the signed sum is a violation. Round 5: shortcut returns of fuse() reduce like the general path (G2).",
     "C20": "Also: f_ordered is the column-major total order on all integer sites (interpreted on 3200 witness pairs); site-addressed reads of "
            "the stored data go through __getitem__ (patch first); the bond tables concatenated by bonds() hold one sequence type and bonds "
            "are built from nn_site() results only under a None test.",
+    "C20": "Round 5: a validation flag overwritten per site is reported; Q4 decides the flag form of the neighbourhood guard (U11).",
 }
 
 
